@@ -22,6 +22,7 @@ import (
 	"go/types"
 	"os"
 	"path/filepath"
+	"regexp"
 	"sort"
 	"strings"
 
@@ -29,6 +30,10 @@ import (
 )
 
 const modPath = "github.com/elementsproject/peerswap"
+
+// lnrpc.NewLightningClient( / walletrpc.NewWalletKitClient( / routerrpc.NewRouterClient( /
+// invoicesrpc.NewInvoicesClient( / chainrpc.NewChainNotifierClient(
+var lndClientCtor = regexp.MustCompile(`\b(lnrpc|walletrpc|routerrpc|invoicesrpc|chainrpc)\.New(Lightning|WalletKit|Router|Invoices|ChainNotifier)Client\(`)
 
 var (
 	repo    = flag.String("repo", "/repo", "repository root")
@@ -456,10 +461,36 @@ func main() {
 			r := &rewriter{fset: p.Fset, file: p.Fset.File(f.Pos()), src: src, info: p.TypesInfo, census: census, fname: fname}
 			r.collect(f)
 			errs = append(errs, r.errs...)
-			if len(r.edits) == 0 {
+			lndSeam := p.PkgPath == modPath+"/lnd" && lndClientCtor.Match(src)
+			if len(r.edits) == 0 && !lndSeam {
 				continue
 			}
 			res := r.text(0, len(src))
+			if lndSeam {
+				// package lnd: the generated gRPC client constructors are answered by the
+				// simulated LND (verifsim/lndhook); everything else stays the adapter's own code
+				census["lnd:grpc-client-constructor"] += len(lndClientCtor.FindAllString(res, -1))
+				res = lndClientCtor.ReplaceAllString(res, "verifsimlndhook.New${2}Client(")
+				lines := strings.SplitAfter(res, "\n")
+				for li, l := range lines {
+					if strings.HasPrefix(l, "package ") {
+						lines[li] = l + "import verifsimlndhook \"" + modPath + "/verifsim/lndhook\"\n"
+						break
+					}
+				}
+				res = strings.Join(lines, "")
+				// an import that only served the constructor call would now be unused
+				for _, imp := range []string{"lnrpc", "walletrpc", "routerrpc", "invoicesrpc", "chainrpc"} {
+					if !regexp.MustCompile(`\b` + imp + `\.`).MatchString(res) {
+						res = regexp.MustCompile(`(?m)^\s*"github.com/lightningnetwork/lnd/lnrpc(/`+imp+`)?"\s*$`).ReplaceAllStringFunc(res, func(m string) string {
+							if strings.HasSuffix(strings.TrimSpace(m), "/"+imp+"\"") || (imp == "lnrpc" && strings.HasSuffix(strings.TrimSpace(m), "lnd/lnrpc\"")) {
+								return ""
+							}
+							return m
+						})
+					}
+				}
+			}
 			if r.usesRT {
 				// add the rt import right after the package clause
 				pkgEnd := r.off(f.Name.End())
@@ -489,7 +520,7 @@ func main() {
 		}
 	}
 	// virtual packages
-	for _, vp := range []string{"rt", "simsync", "simrand", "hsync", "vfmt"} {
+	for _, vp := range []string{"rt", "simsync", "simrand", "hsync", "vfmt", "lndhook"} {
 		ents, err := os.ReadDir(filepath.Join(*simDir, vp))
 		if err != nil {
 			errs = append(errs, err.Error())
